@@ -15,7 +15,7 @@ K = {  # code -> (rust type, human name, symbolic domain)
     "S": ("KS", "string", "ASCII strings of 0..2 bytes (symbolic length and bytes)"),
     "Y": ("KY", "bytes", "byte strings of 0..2 bytes (symbolic length and bytes)"),
     "D": ("KD", "duration", "all valid chrono durations (secs, nanos)"),
-    "T": ("KT", "timestamp", "all representable whole-second instants"),
+    "T": ("KT", "timestamp", "instants within 2^17 s of the epoch, arbitrary nanoseconds"),
     "E": ("KE", "error", "the error value DivideByZero"),
     "Ty": ("KTy", "type", "the type value `int`"),
 }
@@ -25,7 +25,8 @@ SCALARS = ["I", "U", "F", "B", "N", "S", "Y", "D", "T", "E", "Ty"]
 H = []
 
 
-def add(name, prop, tier, unwind, body, inputs, need=None, cap=None, note=None, funcs=None):
+def add(name, prop, tier, unwind, body, inputs, need=None, cap=None, note=None, funcs=None, uw=None):
+    unwind = uw or unwind
     H.append(
         dict(
             name=name,
@@ -66,33 +67,47 @@ def uw(*cs):
 
 # ---------------------------------------------------------------- C03
 OPS = [("add", "Add"), ("sub", "Sub"), ("mul", "Mul")]
+MIXED = {("I", "U"), ("U", "I")}
 for a in NUM:
     for b in NUM:
-        tier = "quick"
         for (on, oc) in OPS:
             need = []
             if a in "IU" and b in "IU":
                 need = ["expect error"]
+            tier = "quick"
+            cap = None
+            if on == "mul" and ("F" in (a, b) or (a, b) in MIXED):
+                # double multiplication (two bit-blasted 53x53 multipliers) and the i128 product of
+                # the int-with-uint form need 3-20 minutes each: thorough tier only
+                tier, cap = "thorough", 1500
             add(f"c03_{on}_{kn(a)}_{kn(b)}", "C03", tier, 3,
-                f"crate::c03::binop::<{kt(a)}, {kt(b)}>(Op::{oc})", dom(a, b), need=need,
-                funcs=[f"<CelValue as {oc}>::{on}", "CelValue::type_prop", "CelValue::error_prop_or"])
+                f"crate::c03::binop::<{kt(a)}, {kt(b)}>(Op::{oc})", dom(a, b), need=need, cap=cap,
+                funcs=[f"<CelValue as {oc}>::{on}", "CelValue::type_prop", "CelValue::error_prop_or", "CelValue::mixed_ints"])
+            if tier == "thorough":
+                # quick stand-in: operands below 2^16 in magnitude plus the boundary set
+                add(f"c03_{on}16_{kn(a)}_{kn(b)}", "C03", "quick", 3,
+                    f"crate::c03::binop_bounded::<{kt(a)}, {kt(b)}>(Op::{oc}, 16)", dom(a, b),
+                    note="integers bounded to |x| < 2^16 plus the boundary set; doubles unrestricted bit patterns with |exponent| small (see body)",
+                    funcs=[f"<CelValue as {oc}>::{on}", "CelValue::type_prop"])
         for (on, oc) in [("div", "Div"), ("rem", "Rem")]:
             add(f"c03_{on}pred_{kn(a)}_{kn(b)}", "C03", "quick", 3,
                 f"crate::c03::divrem_pred::<{kt(a)}, {kt(b)}>(Op::{oc})", dom(a, b),
                 note="full width, error predicate only (no quotient equivalence)",
-                funcs=[f"<CelValue as {oc}>::{on}", "CelValue::type_prop"])
+                funcs=[f"<CelValue as {oc}>::{on}", "CelValue::type_prop", "CelValue::mixed_ints"])
             if a in "IUB" and b in "IUB" and not (a == "B" and b == "B"):
-                add(f"c03_{on}val_{kn(a)}_{kn(b)}", "C03", "thorough", 3,
+                mixed = (a, b) in MIXED
+                add(f"c03_{on}val_{kn(a)}_{kn(b)}", "C03", "thorough", 70 if mixed else 3,
                     f"crate::c03::divrem_val::<{kt(a)}, {kt(b)}>(Op::{oc}, 15)", dom(a, b),
-                    note="value exactness for |a|,|b| < 2^15 plus the boundary set", cap=900,
+                    note="value exactness for |a|,|b| < 2^15 plus the boundary set", cap=1500,
                     funcs=[f"<CelValue as {oc}>::{on}", "CelValue::type_prop"])
-                add(f"c03_{on}val8_{kn(a)}_{kn(b)}", "C03", "quick", 3,
-                    f"crate::c03::divrem_val::<{kt(a)}, {kt(b)}>(Op::{oc}, 8)", dom(a, b),
-                    note="value exactness for |a|,|b| < 2^8 plus the boundary set",
-                    funcs=[f"<CelValue as {oc}>::{on}", "CelValue::type_prop"])
+                if not mixed:
+                    add(f"c03_{on}val8_{kn(a)}_{kn(b)}", "C03", "quick", 3,
+                        f"crate::c03::divrem_val::<{kt(a)}, {kt(b)}>(Op::{oc}, 8)", dom(a, b),
+                        note="value exactness for |a|,|b| < 2^8 plus the boundary set",
+                        funcs=[f"<CelValue as {oc}>::{on}", "CelValue::type_prop"])
             elif "F" in (a, b):
-                add(f"c03_{on}val_{kn(a)}_{kn(b)}", "C03", "quick", 3,
-                    f"crate::c03::binop::<{kt(a)}, {kt(b)}>(Op::{oc})", dom(a, b),
+                add(f"c03_{on}val_{kn(a)}_{kn(b)}", "C03", "thorough" if on == "div" else "quick", 3,
+                    f"crate::c03::binop::<{kt(a)}, {kt(b)}>(Op::{oc})", dom(a, b), cap=1500,
                     funcs=[f"<CelValue as {oc}>::{on}", "CelValue::type_prop"])
 for a in NUM:
     add(f"c03_neg_{kn(a)}", "C03", "quick", 3, f"crate::c03::neg::<{kt(a)}>()", dom(a),
@@ -170,6 +185,21 @@ for a in ["I", "U", "F", "B", "N", "D", "S"]:
         add(f"c06_scalarcontainer_{kn(a)}_{kn(b)}", "C06", "quick" if a in "ISN" and b in "IBN" else "thorough", uw(a, b),
             f"crate::c06::scalar_container::<{kt(a)}, {kt(b)}>()", dom(a, b), funcs=["CelValue::in_", "CelValue::index"])
 
+# lists of at most one element (B1): concrete index per query, symbolic element
+for i in [-3, -2, -1, 0, 1, 2, -9223372036854775808, 9223372036854775807]:
+    nm = str(i).replace("-", "m")
+    add(f"c06_list1_index_int_{nm}", "C06", "quick" if abs(i) <= 2 else "thorough", 4, f"crate::c06::list1_index_int({i}i64)" if i != -9223372036854775808 else "crate::c06::list1_index_int(i64::MIN)",
+        {"list": "[x] with x any int", "index": f"{i} (concrete)"}, funcs=["CelValue::index"], cap=600)
+for i in [0, 1, 18446744073709551615]:
+    add(f"c06_list1_index_uint_{i}", "C06", "quick" if i < 2 else "thorough", 4, f"crate::c06::list1_index_uint({i}u64)",
+        {"list": "[x] with x any int", "index": f"{i}u (concrete)"}, funcs=["CelValue::index"], cap=600)
+add("c06_list0_index", "C06", "quick", 4, "crate::c06::list0_index()", {"list": "[]", "index": "all i64 / all u64"}, need=["negative index"], funcs=["CelValue::index"], cap=600)
+for a in ["F", "B", "N", "S", "D"]:
+    add(f"c06_list1_index_{kn(a)}", "C06", "quick" if a in "FBN" else "thorough", uw(a), f"crate::c06::list1_index_kind::<{kt(a)}>()",
+        {"list": "[x] with x any int", "index": K[a][2]}, funcs=["CelValue::index"], cap=600)
+add("c06_list_in", "C06", "quick", 4, "crate::c06::list_in()", {"needle": "all i64", "list": "[x] with x any int, and []"}, need=["member", "not a member"], funcs=["CelValue::in_"], cap=600)
+add("c06_list_size", "C06", "quick", 4, "crate::c06::list_size()", {"list": "[x] and []"}, funcs=["size::dispatch"], cap=600)
+
 # ---------------------------------------------------------------- C10
 add("c10_jump_target", "C10", "quick", 3, "crate::c10::jump_target()",
     {"pc": "1..=len", "dist": "all i32", "len": "0..=isize::MAX"},
@@ -211,6 +241,8 @@ add("c14_bytes_string_roundtrip", "C14", "quick", 12, "crate::c14::bytes_string_
     funcs=["bytes_type::dispatch", "string_type::dispatch"])
 add("c14_string_of_bytes", "C14", "quick", 12, "crate::c14::string_of_bytes()", {"b": K["Y"][2]}, need=["two-byte scalar", "invalid UTF-8"],
     funcs=["string_type::dispatch"])
+add("c14_duration_secs", "C14", "quick", 4, "crate::c14::duration_inner1()", {"secs": "all i64"}, need=["out of range seconds"], funcs=["duration_type::methods::duration_ir (typed overload)"])
+add("c14_duration_secs_nanos", "C14", "quick", 4, "crate::c14::duration_inner2()", {"secs": "all i64", "nanos": "all i64"}, need=["nanos above u32", "valid pair"], funcs=["duration_type::methods::duration_iir (typed overload)"])
 for a in "IU":
     add(f"c14_timestamp_{kn(a)}", "C14", "quick", 12, f"crate::c14::timestamp_ctor::<{kt(a)}>()", dom(a),
         need=["representable instant"] + (["uint above the int range"] if a == "U" else []), funcs=["timestamp_type::dispatch"], cap=900)
@@ -228,29 +260,87 @@ for a in MATH_ARGS:
         need=["non-positive operand", "positive operand"] if a in "IU" else [], funcs=["math::lg::dispatch"])
     add(f"c15_log_{kn(a)}", "C15", q, max(uw(a), 22), f"crate::c15::ilog::<{kt(a)}>(true)", dom(a),
         need=["non-positive operand", "positive operand"] if a in "IU" else [], funcs=["math::log::dispatch"], cap=900)
+for (sn, sc) in [("int_int", "II"), ("int_uint", "IU"), ("uint_int", "UI"), ("uint_uint", "UU")]:
+    add(f"c15_powpred_{sn}", "C15", "quick", 4, f"crate::c15::pow_inner_pred(crate::c15::PowSig::{sc})",
+        {"base": "all 64-bit values", "exponent": "every value outside 0..=u32::MAX, plus 0 and 1"},
+        need=["exponent outside 0..=u32::MAX", "exponent 0 or 1"], funcs=[f"math::pow::methods::pow_{sc.lower()}r (typed overload)", "math::pow::exponent"], cap=900)
+    pf = [f"math::pow::methods::pow_{sc.lower()}r (typed overload)"]
+    add(f"c15_powval_{sn}", "C15", "quick", 10, f"crate::c15::pow_inner_val(crate::c15::PowSig::{sc}, 20, 6)",
+        {"base": "|base| < 2^6", "exponent": "0..=20"}, need=["largest exponent", "overflow"], funcs=pf, cap=900,
+        note="exact power, or an error when it overflows (63^20 does); wider bases/exponents: thorough tier")
+    for (tag, me, bb) in [("a", 3, 10), ("c", 4, 8), ("e", 70, 4)]:
+        add(f"c15_powval{tag}_{sn}", "C15", "thorough", 10, f"crate::c15::pow_inner_val(crate::c15::PowSig::{sc}, {me}, {bb})",
+            {"base": f"|base| < 2^{bb}", "exponent": f"0..={me}"}, need=["largest exponent"], funcs=pf, cap=1500)
+for (sn, sb) in [("int", "true"), ("uint", "false")]:
+    add(f"c15_powfloatexp_{sn}", "C15", "quick", 4, f"crate::c15::pow_inner_float_exp({sb})",
+        {"base": "all 64-bit values", "exponent": "every double that is not a valid exponent, plus 0.0 and 1.0"},
+        need=["fractional exponent", "NaN exponent", "exponent 0.0 or 1.0"], funcs=["math::pow::float_exponent", "math::pow::methods::pow_idr/pow_udr (typed overloads)"], cap=900)
 # pow, and every call with two or more arguments (arity checks included), goes through
 # `let [a0, a1] = args.try_into()` on a heap Vec of two CelValues; CBMC then loses the
 # elements' discriminants and unrolls the recursive drop glue of every variant: does not finish
 # (15 min cap). Not decided here - see DESIGN.md 3/C15.
 
 # ---------------------------------------------------------------- C16
-SHAPES = [("tplusd", "TplusD"), ("dplust", "DplusT"), ("tminusd", "TminusD"), ("tminust", "TminusT"), ("dplusd", "DplusD"), ("dminusd", "DminusD")]
-for (sn, sc) in SHAPES:
-    add(f"c16_arith_{sn}", "C16", "quick", 3, f"crate::c16::arith(crate::c16::Shape::{sc}, false)",
-        {"timestamps": K["T"][2], "durations": K["D"][2]}, need=["representable result"], cap=900,
-        funcs=["<CelValue as Add>::add", "<CelValue as Sub>::sub"])
-    if sn[0] == "t" or sn == "dplust":
-        add(f"c16_arith_{sn}_nanos", "C16", "thorough", 3, f"crate::c16::arith(crate::c16::Shape::{sc}, true)",
-            {"timestamps": "all representable instants with nanoseconds", "durations": K["D"][2]}, need=["representable result"], cap=1500,
-            funcs=["<CelValue as Add>::add", "<CelValue as Sub>::sub"])
-add("c16_dur_roundtrip", "C16", "quick", 3, "crate::c16::dur_roundtrip()", {"d1,d2": K["D"][2]}, need=["round trip"], funcs=["<CelValue as Add>::add", "<CelValue as Sub>::sub"])
-add("c16_ts_roundtrip", "C16", "thorough", 3, "crate::c16::ts_roundtrip(false)", {"t": K["T"][2], "d": K["D"][2]}, need=["round trip"], cap=1500, funcs=["<CelValue as Add>::add", "<CelValue as Sub>::sub"])
-add("c16_ts_diff_roundtrip", "C16", "thorough", 3, "crate::c16::ts_diff_roundtrip(false)", {"t1,t2": K["T"][2]}, need=["round trip"], cap=1500, funcs=["<CelValue as Add>::add", "<CelValue as Sub>::sub"])
+# base instants (epoch seconds) around which timestamps are explored in windows of +-2^17 s
+BASES = [
+    ("epoch", 0, "1970-01-01"),
+    ("max", 8210266876799 - (1 << 16), "upper end of chrono's range (year 262142)"),
+    ("min", -8334601228800 + (1 << 16), "lower end of chrono's range (year -262143)"),
+    ("nsmax", 9223372036, "2262-04-11: end of the i64-nanosecond window"),
+    ("nsmin", -9223372037, "1677-09-21: start of the i64-nanosecond window"),
+    ("leap2000", 951782400, "2000-02-29 (leap day in a century year)"),
+    ("y2100", 4102444800, "2100-01-01 (non-leap century year)"),
+    ("y10000", 253402300800, "10000-01-01 (five-digit year rollover)"),
+    ("y0001", -62135596800, "0001-01-01 (start of the common era)"),
+    ("y2300", 10413792000, "2300-01-01 (outside the i64-nanosecond window)"),
+    ("leap2024", 1709164800, "2024-02-29"),
+    ("y1900", -2203891200, "1900-03-01 (after the skipped leap day of 1900)"),
+    ("newyear", 1735689600, "2025-01-01 (year boundary)"),
+]
+QUICK_BASES = {"epoch", "max", "nsmax"}
+WIN_TXT = "window of +-2^17 s around {} ({}), arbitrary nanoseconds"
+TS_FUNCS = ["<CelValue as Add>::add", "<CelValue as Sub>::sub", "CelValue::checked_time_result"]
+add("c16_range_constants", "C16", "quick", 3, "crate::c16::range_constants()", {"secs": "all i64"},
+    need=["representable", "not representable"], funcs=[], note="validates the numeric range bounds the other C16 oracles use against chrono itself")
+for (bn, bv, bd) in BASES:
+    q = "quick" if bn in QUICK_BASES else "thorough"
+    for (sn, sc) in [("tplusd", "TplusD"), ("dplust", "DplusT"), ("tminusd", "TminusD")]:
+        qq = q if sn != "dplust" or bn == "epoch" else "thorough"
+        add(f"c16_range_{sn}_{bn}", "C16", qq, 3, f"crate::c16::ts_arith_range(crate::c16::Shape::{sc}, {bv})",
+            {"t": WIN_TXT.format(bv, bd), "d": K["D"][2]}, need=["representable result", "result outside the representable range"], cap=900, funcs=TS_FUNCS,
+            note="timestamp or error exactly by the representable range; never a panic")
+        add(f"c16_value_{sn}_{bn}", "C16", qq, 3, f"crate::c16::ts_arith_value(crate::c16::Shape::{sc}, {bv})",
+            {"t": WIN_TXT.format(bv, bd), "d": "|d| < 2^17 s, arbitrary nanoseconds"}, need=["representable result with a nanosecond carry or borrow"], cap=900, funcs=TS_FUNCS)
+    add(f"c16_tsroundtrip_{bn}", "C16", q, 3, f"crate::c16::ts_roundtrip({bv})",
+        {"t": WIN_TXT.format(bv, bd), "d": "|d| < 2^17 s, arbitrary nanoseconds"}, need=["round trip"], cap=900, funcs=TS_FUNCS)
+    add(f"c16_tsdiff_{bn}_{bn}", "C16", q, 3, f"crate::c16::ts_diff({bv}, {bv})",
+        {"t1,t2": WIN_TXT.format(bv, bd)}, need=["nanosecond borrow"], cap=900, funcs=TS_FUNCS)
+    add(f"c16_tsdiffroundtrip_{bn}_{bn}", "C16", q, 3, f"crate::c16::ts_diff_roundtrip({bv}, {bv})",
+        {"t1,t2": WIN_TXT.format(bv, bd)}, need=["round trip"], cap=900, funcs=TS_FUNCS)
+    add(f"c16_tsorder_{bn}_{bn}", "C16", q, 3, f"crate::c16::ts_order({bv}, {bv})",
+        {"t1,t2": WIN_TXT.format(bv, bd)}, need=["earlier", "later"], cap=900, funcs=["CelValue::ord", "CelValue::lt/le/gt/ge", "<CelValue as CelValueDyn>::eq"])
+    add(f"c16_calendar_{bn}", "C16", q, 3, f"crate::c16::calendar_utc({bv})",
+        {"t": WIN_TXT.format(bv, bd)}, need=["last second of a day"] + (["leap day"] if bn == "leap2000" else []), cap=900,
+        funcs=["time_funcs::get_full_year/get_month/get_date/get_day_of_month/get_day_of_year/get_day_of_week/get_hours/get_minutes/get_seconds/get_milliseconds (UTC overloads)"],
+        note="all ten UTC accessors against an independent civil-from-days computation")
+# cross-window pairs: differences and order between far-apart instants
+CROSS = [("epoch", "max"), ("min", "max"), ("max", "min"), ("epoch", "nsmax"), ("nsmin", "nsmax"), ("y2300", "epoch"), ("y2300", "nsmax"), ("y0001", "y10000"), ("leap2000", "y2100")]
+BV = {b[0]: b[1] for b in BASES}
+BD = {b[0]: b[2] for b in BASES}
+for (b1, b2) in CROSS:
+    q = "quick" if (b1, b2) in (("epoch", "max"), ("y2300", "epoch")) else "thorough"
+    ins = {"t1": WIN_TXT.format(BV[b1], BD[b1]), "t2": WIN_TXT.format(BV[b2], BD[b2])}
+    add(f"c16_tsdiff_{b1}_{b2}", "C16", q, 3, f"crate::c16::ts_diff({BV[b1]}, {BV[b2]})", ins, need=["nanosecond borrow"], cap=900, funcs=TS_FUNCS)
+    add(f"c16_tsdiffroundtrip_{b1}_{b2}", "C16", "thorough", 3, f"crate::c16::ts_diff_roundtrip({BV[b1]}, {BV[b2]})", ins, need=["round trip"], cap=900, funcs=TS_FUNCS)
+    add(f"c16_tsorder_{b1}_{b2}", "C16", q, 3, f"crate::c16::ts_order({BV[b1]}, {BV[b2]})", ins, need=[], cap=900, funcs=["CelValue::ord", "CelValue::lt/le/gt/ge"])
+for (sn, sc) in [("dplusd", "DplusD"), ("dminusd", "DminusD")]:
+    add(f"c16_arith_{sn}", "C16", "quick", 3, f"crate::c16::dur_arith(crate::c16::Shape::{sc})", {"d1,d2": K["D"][2]},
+        need=["representable result", "result outside the representable range"], funcs=TS_FUNCS)
+add("c16_dur_roundtrip", "C16", "quick", 3, "crate::c16::dur_roundtrip()", {"d1,d2": K["D"][2]}, need=["round trip"], funcs=TS_FUNCS)
 add("c16_dur_accessors", "C16", "quick", 3, "crate::c16::dur_accessors()", {"d": K["D"][2]},
     need=["negative duration with a fraction", "positive duration"], cap=900,
     funcs=["time_funcs::get_hours::dispatch", "time_funcs::get_minutes::dispatch", "time_funcs::get_seconds::dispatch", "time_funcs::get_milliseconds::dispatch"])
 add("c16_dur_order", "C16", "quick", 3, "crate::c16::dur_order()", {"d1,d2": K["D"][2]}, need=["earlier"], funcs=["CelValue::lt", "CelValue::ord"])
-add("c16_ts_order", "C16", "quick", 3, "crate::c16::ts_order(false)", {"t1,t2": K["T"][2]}, need=["earlier"], cap=900, funcs=["CelValue::lt", "CelValue::ord"])
 
 # ---------------------------------------------------------------- C01
 for a in SCALARS:
@@ -277,8 +367,6 @@ add("c01_jump_total", "C01", "quick", 3, "crate::c01::jump_total()", {"pc": "all
     need=["jump accepted", "jump rejected"], funcs=["Interpreter::checked_jump_target"])
 for a in ["S", "Y", "I", "N"]:
     add(f"c01_size_{kn(a)}", "C01", "quick" if a in "IN" else "thorough", uw(a), f"crate::c01::size_total::<{kt(a)}>()", dom(a), need=["size returned"], funcs=["size::dispatch"])
-for a in ["D", "I", "N"]:
-    add(f"c01_duracc_{kn(a)}", "C01", "quick", 3, f"crate::c01::dur_accessors_total::<{kt(a)}>()", dom(a), need=["accessors returned"], funcs=["time_funcs::get_*::dispatch"])
 
 
 BY_NAME = {h["name"]: h for h in H}
